@@ -257,3 +257,39 @@ Definition prop_C15 (es : list entry) (pairs : list (nat * nat)) : bool :=
   forallb (fun i => implb (offends es i)
                           (existsb (fun ab => Nat.eqb (fst ab) i || Nat.eqb (snd ab) i) pairs))
           (seq 0 (List.length es)).
+
+(* ---- the pipeline level (core/validators/api.validator.go) ----
+
+   getRouteEntries turns every method (receiver) of every controller into one entry whose path is
+   the value of the controller's @Route annotation (the prefix the generated routers mount the
+   method under) followed by the value of the METHOD's @Route annotation, plain concatenation like
+   in the router templates; inPlaceAppendPathConflictDiagnostics then gives one `route-conflict`
+   warning to the method of either end of every conflict FindConflicts returns. *)
+
+Record method := { m_prefix : str; m_route : str; m_verb : str }.
+
+(* the entry ApiValidator.getRouteEntries builds for a method *)
+Definition impl_entry (m : method) : entry :=
+  {| e_path := m_prefix m ++ m_route m; e_verb := m_verb m |}.
+
+(* the route the method answers on (written from the router templates, independently of the
+   validator): `{{../RestMetadata.Path}}{{RestMetadata.Path}}` *)
+Definition mounted_entry (m : method) : entry :=
+  {| e_path := m_prefix m ++ m_route m; e_verb := m_verb m |}.
+
+(* indices of the entries that receive a warning, one occurrence per warning *)
+Definition warned (es : list entry) : list nat :=
+  flat_map (fun o : obs => [fst (fst o); snd (fst o)]) (find_conflicts_obs es).
+
+Definition warned_methods (ms : list method) : list nat := warned (map impl_entry ms).
+
+(* "each offending method receives a warning", and nobody else: an entry carries a warning exactly
+   when it overlaps with another same-verb entry; written from the property text ([offends]),
+   [w] is the observed list of warned entries *)
+Definition prop_C15_warned (es : list entry) (w : list nat) : bool :=
+  forallb (fun i => Bool.eqb (offends es i) (mem Nat.eqb i w)) (seq 0 (List.length es)) &&
+  forallb (fun i => Nat.ltb i (List.length es)) w.
+
+(* the same for a project: the routes are the mounted ones *)
+Definition prop_C15_pipeline (ms : list method) (w : list nat) : bool :=
+  prop_C15_warned (map mounted_entry ms) w.
